@@ -135,18 +135,21 @@ def mirror_micro(n, m, micro):
     return [[n - k, m - 1 - j] for k, j in reversed(micro)]
 
 
+def mirror_event_s(n, m, e):
+    """Model/C11SymBedCorr.lean `mirrorMEventS`: the two sentinels of read_region are kept (undefined region: unchanged;
+    absent position + read exon k: absent position + exon n - k), every other event is `mirror_event`"""
+    if list(e["read"]) == [G14.UNDEF, G14.UNDEF]:
+        return {"t": T.swap_lr(e["t"]), "iso": mirror_idx(m, e["iso"]), "read": list(e["read"])}
+    if e["read"][0] == G14.ABSENT:
+        return {"t": T.swap_lr(e["t"]), "iso": mirror_idx(m, e["iso"]), "read": [G14.ABSENT, n - e["read"][1]]}
+    return mirror_event(n, m, e)
+
+
 def mirror_event_list(n, m, evs):
-    """the event LIST of the mirrored read as JunctionComparator would emit it: opposite order; an event whose read
-    region starts with the absent sentinel names the read exon (n - k), the undefined region stays"""
-    out = []
-    for e in reversed(evs):
-        if e["read"][0] == G14.ABSENT:
-            out.append({"t": T.swap_lr(e["t"]), "iso": mirror_idx(m, e["iso"]), "read": [G14.ABSENT, n - e["read"][1]]})
-        elif e["read"][0] == G14.UNDEF:
-            out.append({"t": T.swap_lr(e["t"]), "iso": mirror_idx(m, e["iso"]), "read": list(e["read"])})
-        else:
-            out.append(mirror_event(n, m, e))
-    return out
+    """Model/C11SymBedCorr.lean `mirrorEventList` (compared with the driver op `C11.T.mirror_event_list` on every run):
+    the event LIST of the mirrored read as JunctionComparator would emit it, every event seen from the other end
+    (`mirror_event_s`), in the opposite order"""
+    return [mirror_event_s(n, m, e) for e in reversed(evs)]
 
 
 def split_event_list(case):
@@ -409,7 +412,7 @@ def micro_wf(n, m, micro):
 
 
 def emap_wf(n, m, emap):
-    """Lemmas/C11CorrectorMirror.lean `EmapWF n m emap` (hypothesis of the open statement `ProcessEventsMirror`)"""
+    """Lemmas/C11CorrectorMirror.lean `EmapWF n m emap` (hypothesis of `ProcessEventsMirror` = theorem mirror_dual_processEvents)"""
     keys = [k for k, _ in emap]
     if len(set(keys)) != len(keys):
         return False
@@ -451,7 +454,10 @@ def dom_mirror_car(par, case):
     n = len(case["exons"]) - 1
     m = len(G14.introns_of(_tl(case["family"][case["iso_index"]])))
     emap, micro = split_event_list(case)
-    return emap_wf(n, m, emap) and micro_wf(n, m, micro)
+    # Props/C11Corrector.lean `EventsMirrorable`: EmapWF, MicroWF, an absent-sentinel event names ONE isoform intron,
+    # fewer than 2^31 read introns
+    single = all(e["iso"][0] == e["iso"][1] for e in case["events"] if e["read"][0] == G14.ABSENT)
+    return emap_wf(n, m, emap) and micro_wf(n, m, micro) and single and n <= G14.ABSENT
 
 
 def _tin_mirror_car(par, case):
@@ -509,17 +515,19 @@ RELS = [
         tin=lambda par, kw: {"case": shift_case(par["k"], kw["case"]), "emap": kw["emap"], "micro": kw.get("micro", [])},
         tout=_shift_res, eq=eq_kind,
         nontrivial=lambda kw, v: not vlib.is_err(v) and len(v["introns"]) > 0),
-    # searched, not proved: the whole loop under reflection (`ProcessEventsMirror`, kept as `def … : Prop`); its
-    # per-event step is the theorem mirror_dual_eventStep
-    Rel("M.process_events", "mirror_dual_processEvents_micro (event map without index-keyed events) / ProcessEventsMirror "
-        "(OPEN, searched) / mirror_dual_eventStep / mirror_dual_microStep / mirror_dual_buildExons",
+    # the whole loop under reflection: theorem mirror_dual_processEvents (= `ProcessEventsMirror`, every EmapWF / MicroWF
+    # input); the relation replays it on model and real code
+    Rel("M.process_events", "mirror_dual_processEvents (: ProcessEventsMirror, index-keyed events + micro map) / "
+        "mirror_dual_processEvents_micro / mirror_dual_eventStep / mirror_dual_microStep / mirror_dual_buildExons",
         model=lambda kw: vlib.req("C14.process_events", **_pev(kw)[0]), impl=lambda kw: _pev(kw)[1],
         tin=_tin_mirror_events, tout=_mirror_res, domain=dom_mirror_events, eq=eq_kind,
         nontrivial=lambda kw, v: not vlib.is_err(v) and len(kw["emap"]) + len(kw.get("micro", [])) > 0),
     # the same through correct_misalignments (event LISTS, several micro-intron events per read exon, first / last exon):
-    # searched; the loop on the built maps is the relation above, exon chain and gate are mirror_dual_buildExons/validChain
-    Rel("M.correct_assigned_read", "mirror_dual_processEvents_micro + mirror_dual_buildExons + mirror_dual_validChain "
-        "(event lists through correct_misalignments: searched)",
+    # theorem mirror_dual_correctAssignedRead (hypothesis `EventsMirrorable` = dom_mirror_car; `mirror_event_list` =
+    # Model `mirrorEventList`, sentinels kept)
+    Rel("M.correct_assigned_read", "mirror_dual_correctAssignedRead (event lists through correct_misalignments; "
+        "mirror_dual_buildEventMap / mirror_dual_buildMicroMap + mirror_dual_processEvents + mirror_dual_buildExons + "
+        "mirror_dual_validChain / validIntronChain)",
         model=lambda kw: vlib.req("C14.correct_assigned_read", **_car(kw)[0]), impl=lambda kw: _car(kw)[1],
         tin=_tin_mirror_car, tout=lambda par, kw, v: T.mirror_l(par["L"], _tl(v)), domain=dom_mirror_car, eq=eq_kind,
         nontrivial=lambda kw, v: not vlib.is_err(v) and v != vlib.canon(kw["exons"])),
@@ -616,6 +624,10 @@ def transformation_checks(ctx):
         todo.append(("T.mirror_emap", {"n": n, "m": m, "emap": emap}, mirror_emap(n, m, emap)))
         micro = [[rng.randint(-1, n + 1), rng.randint(-1, m)] for _ in range(rng.randint(0, 5))]
         todo.append(("T.mirror_micro", {"n": n, "m": m, "micro": micro}, mirror_micro(n, m, micro)))
+        evl = vlib.canon(G14.rand_events(rng, n, m, ["extra_intron_known", "intron_migration"], malformed=rng.random() < 0.4))
+        if rng.random() < 0.3:      # a half-sentinel read region is NOT the undefined region
+            evl.append({"t": "intron_retention", "iso": [0, 0], "read": [G14.UNDEF, rng.randint(0, n)]})
+        todo.append(("T.mirror_event_list", {"n": n, "m": m, "events": evl}, mirror_event_list(n, m, evl)))
         err = G14.rand_err_table(rng, rng.randint(0, n + 1))
         todo.append(("T.mirror_err", {"n": n, "err": err}, mirror_err(n, err)))
     outs = ctx.driver.run([vlib.req("C11." + op, **kw) for op, kw, _ in todo])
